@@ -27,7 +27,7 @@ pub static DEF: PropDef = PropDef {
     level: "exploration",
     total: |t| t.pick(64, 2400),
     run,
-    rule: "one listening server and 1..8 (quick) / 1..32 (thorough) clients - in one paused scenario in 24 a crowd of 130..220 clients that have all connected and written before the server's first accept() - over sockets, TCP, IPv4, optional ARP and one link (in a third of the runs the clients also send 0..3 datagrams to a datagram socket of the same server, before their stream connects or after its first write: both transports between one pair of hosts at once): each client issues 1..40 writes (sizes 1, 5, MSS-1, MSS, MSS+1, 4000, 70000; back-to-back or spaced by simulated sleeps) through Socket::send or TcpStream::write; the server reads each connection with recv(n)/read_exact(n)/read() using n from {1,3,4,7,100,1460,65536}, eagerly or after a late start; MTU in {100,576,1500,65535}; latency jitter 0..5 ms; H4 plans dropping <=3 consecutive frames per direction and duplicating <=2; executed on the current_thread runtime with paused clock and on the multi_thread runtime with 2, 4 or 16 workers (content checks only). Every written byte encodes (connection id, stream offset) so loss, duplication, reordering and cross-talk are told apart; every read records (n asked, bytes got). Datagram sockets: each datagram must arrive intact or not at all, at the connected peer only. Non-trivial = >=2 writes in flight at once and >=1 partial read; multi-thread runs additionally count distinct arrival-order fingerprints.",
+    rule: "one listening server and 1..8 (quick) / 1..32 (thorough) clients - in one paused scenario in 24 a crowd of 130..220 clients that have all connected and written before the server's first accept() - over sockets, TCP, IPv4, optional ARP and one link (in a third of the runs the clients also send 0..3 datagrams to a datagram socket of the same server, before their stream connects or after its first write: both transports between one pair of hosts at once): each client issues 1..40 writes (sizes 1, 5, MSS-1, MSS, MSS+1, 4000, 70000; back-to-back or spaced by simulated sleeps) through Socket::send or TcpStream::write; the server reads each connection with recv(n)/read_exact(n)/read() using n from {1,3,4,7,100,1460,65536}, eagerly or after a late start; in a third of the runs the listening socket is closed as soon as the last expected connection was accepted, the accepted sockets staying in use; MTU in {100,576,1500,65535}; latency jitter 0..5 ms; H4 plans dropping <=3 consecutive frames per direction and duplicating <=2; executed on the current_thread runtime with paused clock and on the multi_thread runtime with 2, 4 or 16 workers (content checks only). Every written byte encodes (connection id, stream offset) so loss, duplication, reordering and cross-talk are told apart; every read records (n asked, bytes got). Datagram sockets: each datagram must arrive intact or not at all, at the connected peer only. Non-trivial = >=2 writes in flight at once and >=1 partial read; multi-thread runs additionally count distinct arrival-order fingerprints.",
     assumptions: &[
         "bounded progress: the run must finish before the simulated timeout of 120 s (loss-free duration is well below 1 s)",
         "multi-thread runs judge content and order only; a wall-clock watchdog firing is inconclusive",
@@ -100,6 +100,9 @@ fn stream_scenario(env: &Env, k: u64, case: u64, rng: &mut rand::rngs::SmallRng,
     // mixed transports: in a third of the runs the clients also talk to the server's datagram socket, before or
     // while their stream is open (the two transports share hosts, addresses and the IP layer)
     let mixed = !crowd && rng.chance(1, 3);
+    // "accept the connections you expect, then stop listening": in a third of the runs the listening socket is closed
+    // (dropped) as soon as the last expected connection has been accepted, while the accepted sockets are still in use
+    let close_listener = rng.chance(1, 3);
     let side_port = 5353u16;
     let mut plans = vec![];
     // slow-reader probe: many small spaced writes pile up as separate messages behind a reader that starts late
@@ -126,7 +129,7 @@ fn stream_scenario(env: &Env, k: u64, case: u64, rng: &mut rand::rngs::SmallRng,
     let read_api_name = ["recv", "read_exact", "read"][read_api];
     let desc = json!({
         "kind": "stream", "runtime": format!("{rt:?}"), "clients": n_clients, "mtu": mtu, "arp": with_arp, "jitter_ms": jitter,
-        "read_sizes": read_sizes, "read_api": read_api_name, "late_reader_ms": late_reader_ms, "late_accept_ms": late_accept_ms, "crowd": crowd, "mixed_transports": mixed, "side_datagrams": plans.iter().map(|p| format!("conn {}: {} {}", p.id, p.side_dgrams, if p.side_first { "before connect" } else { "after first write" })).collect::<Vec<_>>(), "slow_reader_probe": slow_reader_probe, "reader_pause_ms": reader_pause_ms, "faults": faults,
+        "read_sizes": read_sizes, "read_api": read_api_name, "late_reader_ms": late_reader_ms, "late_accept_ms": late_accept_ms, "crowd": crowd, "listener_closed_after_last_accept": close_listener, "mixed_transports": mixed, "side_datagrams": plans.iter().map(|p| format!("conn {}: {} {}", p.id, p.side_dgrams, if p.side_first { "before connect" } else { "after first write" })).collect::<Vec<_>>(), "slow_reader_probe": slow_reader_probe, "reader_pause_ms": reader_pause_ms, "faults": faults,
         "writes": plans.iter().map(|p| json!({"conn": p.id, "sizes": p.writes, "gaps_ms": p.gaps, "api": if p.use_stream_api {"TcpStream::write"} else {"Socket::send"}})).collect::<Vec<_>>(),
         "scenario": k, "case": case,
     });
@@ -303,9 +306,16 @@ fn stream_scenario(env: &Env, k: u64, case: u64, rng: &mut rand::rngs::SmallRng,
                                 }
                             }));
                         }
+                        let kept = if close_listener {
+                            drop(listener);
+                            None
+                        } else {
+                            Some(listener)
+                        };
                         for h in handles {
                             let _ = h.await;
                         }
+                        drop(kept);
                     })
                 }));
                 machines.push(with_app(mk_machine(server_ip), 0, || parts).arc());
